@@ -368,5 +368,6 @@ def layout_programs():
     P.append(("det-3match", "packet A {\n    u8 a,\n}\npacket B {\n    u16 b,\n}\npacket C {\n    u32 c,\n}\nroot packet M {\n    u16 Kc, u16 Kb, u16 Ka,\n    match Kc as X {\n        9 : A,\n        10 : B,\n    },\n    match Kb as Y {\n        2 : C,\n        1 : A,\n    },\n    match Ka as Z {\n        1 : B,\n    },\n    A, B, C,\n}\n"))
     P.append(("det-zchar", "options {\n    FixedStringPadChar = '0';\n}\npacket Q {\n    zchar[4] z,\n    @rightPad('\\x00') char[3] n,\n    char[5] d,\n}\nroot packet R {\n    Q,\n    zchar[8] top,\n    repeat zchar[2] zs,\n}\n"))
     P.append(("det-acronyms", "packet MDSnapshotZZ {\n    u8 a,\n}\npacket OrderACK {\n    u16 b,\n}\npacket HTTPServerInfo {\n    string s,\n}\nroot packet FIXMsg {\n    u8 KType,\n    MDSnapshotZZ,\n    repeat OrderACK,\n    match KType as Body {\n        1 : HTTPServerInfo,\n        2 : OrderACK,\n    },\n}\n"))
+    P.append(("det-name-collision", "packet FooBar {\n    u8 a,\n}\npacket foo_bar {\n    u16 b,\n}\nroot packet R {\n    FooBar,\n    foo_bar,\n}\n"))
     P.append(("det-refs", "packet P1 {\n    u8 a,\n}\npacket P2 {\n    P1,\n}\npacket P3 {\n    P2,\n    P1,\n}\npacket P4 {\n    repeat P3,\n    P2,\n}\nroot packet P5 {\n    P4,\n    P3,\n    P1,\n    u8 K,\n    match K as Body {\n        4 : P4,\n        3 : P3,\n        2 : P2,\n        1 : P1,\n    },\n}\n"))
     return P
